@@ -244,14 +244,21 @@ def apply(root, mut):
         parent[mut['path'][-1]] = copy.deepcopy(mut['value'])
     elif k == 'unvar':
         del _at(r, mut['path'])[mut['name']]
+    elif k == 'addkey':
+        _at(r, mut['path'])[mut['new']] = 'v'
+    elif k == 'setopt':
+        cur = _at(r, mut['path'])
+        for key in mut['option'][:-1]:
+            cur = cur.setdefault(key, {})
+        cur[mut['option'][-1]] = copy.deepcopy(mut['value'])
     else:
         raise ValueError(k)
     return r
 
 
-def _wrong_values(t):
+def _wrong_values(t, thorough=False):
     scalar_str = [[WRONG], {WRONG: 1}]
-    scalar_other = [WRONG, [WRONG]]
+    scalar_other = [WRONG, [WRONG]] + ([{WRONG: 1}] if thorough else [])
     if t == 'section':
         return [WRONG, [WRONG]]
     if t == 'list':
@@ -277,6 +284,17 @@ def _misspellings(key):
         if o != key and o not in seen:
             seen.append(o)
     return seen
+
+
+def _leaf_options(schema, prefix):
+    for k, v in schema.items():
+        if isinstance(v, dict):
+            for x in _leaf_options(v, prefix + (k,)):
+                yield x
+        elif isinstance(v, V.T):
+            yield prefix + (k,), v
+        elif isinstance(v, V.L):
+            yield prefix + (k,), 'list'
 
 
 def _jpath(p):
@@ -347,16 +365,32 @@ def mutations(base, platform, thorough):
     # 5. misspell every option key at every nesting level
     for path, key, scope in an.key_positions:
         typos = _misspellings(key)
-        for new in typos if thorough else typos[:2]:
+        # quick: two typos for the keys that give the document its shape (depth <= 3), one for deeper option keys
+        for new in typos if thorough else typos[:2 if len(path) <= 3 else 1]:
             if new in _at(root, path):
                 continue
             yield {'kind': 'misspell', 'path': _jpath(path), 'key': key, 'new': new}
+    # 5b. the same fault by insertion: an unknown key next to the valid ones, in every dict whose keys the schema fixes
+    for path, scope in an.containers:
+        yield {'kind': 'addkey', 'path': _jpath(path), 'new': 'c11x'}
     # 6. a value of the wrong type for every typed option
     for path, t, scope in an.typed_positions:
         if len(path) <= 1:
             continue
-        for w in _wrong_values(t):
+        for w in _wrong_values(t, thorough):
             yield {'kind': 'mistype', 'path': _jpath(path), 'value': w}
+    # 6b. (thorough) every option of the schema that the first component of the document does NOT set, set to a wrongly
+    #     typed value there -- so that every typed option meets every workflow shape, not only the all-options bases
+    if thorough and comps:
+        first = sorted(comps, key=lambda e: e['where'][1])[0]
+        for opt, t in _leaf_options(V.comp_options(), ()):
+            cur = first['comp']
+            for key in opt:
+                cur = cur.get(key) if isinstance(cur, dict) else None
+            if cur is not None or (isinstance(first['comp'].get(opt[0]), dict) is False and opt[0] in first['comp']):
+                continue
+            for w in _wrong_values(t, False):
+                yield {'kind': 'setopt', 'path': ['doc', 'components', first['where'][1]], 'option': list(opt), 'value': w}
     # 7. remove every variable that is referenced
     text = ' '.join(V._strings(root))
     for path, name, scope in an.var_positions:
